@@ -15,7 +15,8 @@
 
   The padding / slicing / length bookkeeping is over `List` and `Nat`/`Int` with Python's slice
   semantics (`l[a:b]` with negative bounds: `Wave.pyAdjust`).  `np.pad(..., mode="edge")` of an
-  empty array with a positive width is an error (`none`), exactly as in numpy.
+  empty array with a positive width is an error (`none`), exactly as in numpy; since /repo d9bdcf58
+  the code guards it (`padKeep`), and `channelModulateOld` keeps the earlier, unguarded form.
 
   Model files import nothing outside core Lean.
 -/
@@ -79,6 +80,19 @@ def padEdgeRight (x : List α) (k : Nat) : Option (List α) :=
   | some b => some (x ++ List.replicate k b)
   | none => if k = 0 then some [] else none
 
+/-- `pm.pad(x, k, mode="edge" if x.size > 0 else "constant")`: the guarded edge padding used by
+`Channel.modulate(keep_ends=True)` since /repo d9bdcf58 (before, the raw `padEdge` — finding F14). -/
+def padKeep [Zero α] (x : List α) (k : Nat) : List α :=
+  match padEdge x k with
+  | some y => y
+  | none => List.replicate (k + k) 0
+
+/-- `pm.pad(x, (0, k), mode="edge" if x.size > 0 else "constant")` (phase arrays). -/
+def padKeepRight [Zero α] (x : List α) (k : Nat) : List α :=
+  match padEdgeRight x k with
+  | some y => y
+  | none => List.replicate k 0
+
 /-- Python `l[a:b]` for integers `a`, `b` (negative = from the end, clamped). -/
 def pySlice (l : List α) (a b : Int) : List α :=
   let s := (Wave.pyAdjust l.length (some a) 0).toNat
@@ -103,12 +117,20 @@ variable {α : Type} [Zero α]
 
 /-- `Channel.modulate(input_samples, keep_ends, eom)` with the length-preserving transfer step
 `filt` = `apply_modulation(·, mod_bandwidth)`. -/
-def channelModulate (filt : List α → List α) (c : ModCfg) (x : List α) (keepEnds : Bool) :
-    Option (List α) :=
-  if !c.filters then some x                 -- warns and returns the input unchanged
+def channelModulate (filt : List α → List α) (c : ModCfg) (x : List α) (keepEnds : Bool) : List α :=
+  if !c.filters then x                      -- warns and returns the input unchanged
   else if keepEnds then
-    -- samples = pad(input, mod_padding + rise_time, mode="edge");
+    -- samples = pad(input, mod_padding + rise_time, mode="edge" if input.size else "constant");
     -- return apply_modulation(samples)[rise_time : -rise_time]
+    pySlice (filt (padKeep x (c.pad + c.rise))) (c.rise : Int) (-(c.rise : Int))
+  else filt (padZero x c.pad)
+
+/-- `Channel.modulate` **before** /repo d9bdcf58 (finding F14): the edge padding was unguarded, so an
+empty input with `keep_ends=True` was numpy's "can't extend empty axis" error (`none`). -/
+def channelModulateOld (filt : List α → List α) (c : ModCfg) (x : List α) (keepEnds : Bool) :
+    Option (List α) :=
+  if !c.filters then some x
+  else if keepEnds then
     (padEdge x (c.pad + c.rise)).map fun s => pySlice (filt s) (c.rise : Int) (-(c.rise : Int))
   else some (filt (padZero x c.pad))
 
@@ -135,20 +157,16 @@ def extendDuration (s : CS α) (new : Nat) : Option (CS α) :=
     some { amp := s.amp ++ List.replicate ext 0, det := s.det ++ List.replicate ext 0, phase := ph }
 
 /-- `ChannelSamples.modulate(channel_obj, max_duration)` without EOM blocks:
-`amp = modulate(amp)`, `det = modulate(det, keep_ends=True)`, phase edge-padded to the new
-length, everything cut to `[0:max_duration]`. -/
-def csModulate (filt : List α → List α) (c : ModCfg) (s : CS α) (maxDur : Option Nat) :
-    Option (CS α) :=
-  match channelModulate filt c s.amp false, channelModulate filt c s.det true with
-  | some amp, some det =>
-    match padEdgeRight s.phase (amp.length - s.phase.length) with
-    | some ph =>
-      let cut : List α → List α := fun l => match maxDur with
-        | none => l
-        | some m => l.take m
-      some { amp := cut amp, det := cut det, phase := cut ph }
-    | none => none
-  | _, _ => none
+`amp = modulate(amp)`, `det = modulate(det, keep_ends=True)`, phase padded to the new length with
+its last value (zeros if empty), everything cut to `[0:max_duration]`. -/
+def csModulate (filt : List α → List α) (c : ModCfg) (s : CS α) (maxDur : Option Nat) : CS α :=
+  let amp := channelModulate filt c s.amp false
+  let det := channelModulate filt c s.det true
+  let ph := padKeepRight s.phase (amp.length - s.phase.length)
+  let cut : List α → List α := fun l => match maxDur with
+    | none => l
+    | some m => l.take m
+  { amp := cut amp, det := cut det, phase := cut ph }
 
 /-- The per-channel body of `sampler.sample(seq, modulation, extended_duration)` applied to the
 plain samples `s` of a channel whose `get_duration(include_fall_time=True)` is `durWithFall`.
@@ -158,7 +176,8 @@ def sampleChannel (filt : List α → List α) (c : ModCfg) (s : CS α) (modulat
   match (if extended ≠ 0 then extendDuration s extended else some s) with
   | none => none
   | some s1 =>
-    if modulation then csModulate filt c s1 (some (if extended ≠ 0 then extended else durWithFall))
+    if modulation then
+      some (csModulate filt c s1 (some (if extended ≠ 0 then extended else durWithFall)))
     else some s1
 
 end Modulate
